@@ -23,8 +23,10 @@ from .gen import ROOT, REPO
 from . import run as R
 
 UNITS_DIR = os.path.join(ROOT, 'units')
-EVID_DIR = os.environ.get('VERIF_EVIDENCE_DIR') or os.path.join(ROOT, 'evidence')
-REPLAY_DIR = os.path.join(os.environ.get('VERIF_EVIDENCE_DIR') or ROOT, 'replays')
+# evidence under /verif/evidence is only ever written for /repo itself; runs against a scratch copy (VERIF_REPO) write elsewhere
+_SCRATCH = os.environ.get('VERIF_REPO') not in (None, '', '/repo')
+EVID_DIR = os.environ.get('VERIF_EVIDENCE_DIR') or (os.path.join('/tmp/verif_scratch', 'evidence') if _SCRATCH else os.path.join(ROOT, 'evidence'))
+REPLAY_DIR = os.path.join(os.environ.get('VERIF_EVIDENCE_DIR') or ('/tmp/verif_scratch' if _SCRATCH else ROOT), 'replays')
 KNOWN_FILE = os.path.join(ROOT, 'known_findings.json')
 
 FIXED_TRUSTED = [
